@@ -118,6 +118,11 @@ Update(e) ==
   /\ epoch' = [epoch EXCEPT ![e] = @ + 1]
   /\ UNCHANGED <<prog, lost, est, pend, writes, closed, faults, injects, delivered>>
 
+\* the same update whose first transmission is lost: the retransmission timer re-sends the KeyUpdate - a retransmission has
+\* the protection of the first transmission (post_handshake.go retransmitPostHandshakeFlight)
+UpdateLost(e) ==
+  /\ Update(e) /\ faults < MaxFaults
+
 \* Close: close_notify when established (protected), blocked Write calls fail without emitting
 Close(e) ==
   /\ ~closed[e]
@@ -139,6 +144,7 @@ Next == \/ Pump /\ Log("pump", "")
         \/ Timer /\ Log("timer", "")
         \/ \E e \in E : \/ WriteCall(e) /\ Log("write", e)
                         \/ Update(e) /\ Log("update", e)
+                        \/ UpdateLost(e) /\ Log("updlost", e)
                         \/ Close(e) /\ Log("close", e)
                         \/ Inject(e) /\ Log("inject0", e)
 Spec == Init /\ [][Next]_vars
